@@ -23,6 +23,52 @@ class Boom(Exception):
     pass
 
 
+async def lose_a_tcp_device(ip, acc):
+    """The application's TCP client loses its device (the device resets the connection: reboot, watchdog), so the operation under
+    way fails and the disconnect may fail too - and the application (re)starts its bridge straight afterwards, before any other
+    socket is created: the bridge's sockets then get the descriptor numbers the dead connection has just given back."""
+    import struct
+
+    import aioswitcher.api as api_mod
+
+    async def device(reader, writer):
+        try:
+            await reader.read(1024)      # the login frame
+            sock = writer.get_extra_info("socket")
+            sock.setsockopt(socket.SOL_SOCKET, socket.SO_LINGER, struct.pack("ii", 1, 0))
+        except Exception:
+            pass
+        writer.transport.abort()         # RST
+
+    try:
+        server = await asyncio.start_server(device, ip, 9957, family=socket.AF_INET, reuse_address=True)
+    except OSError:
+        acc.count("tcp_device_lost_before_start_not_set_up")
+        return
+    api = api_mod.SwitcherType1Api(ip, "ab12cd", "18")
+    try:
+        await asyncio.wait_for(api.connect(), 20)
+        try:
+            await asyncio.wait_for(api.get_state(), 20)
+        except Exception:
+            pass
+        try:
+            await asyncio.wait_for(api.disconnect(), 20)
+            acc.count("tcp_device_lost_before_start:disconnect_returned")
+        except Exception as exc:
+            acc.count(f"tcp_device_lost_before_start:disconnect_raised_{type(exc).__name__}")
+    except Exception:
+        acc.count("tcp_device_lost_before_start_not_set_up")
+    finally:
+        server.close()
+        try:
+            await server.wait_closed()
+        except Exception:
+            pass
+    for _ in range(3):
+        await asyncio.sleep(0)
+
+
 def alphabet(nports):
     a = ["start", "stop", "ctx_ok", "ctx_exc", "send_then_stop", "send_yield_stop", "stop_from_callback", "start_cancelled_stop", "start_twice_at_once", "start_with_a_port_that_cannot_be_bound"]
     for i in range(nports):
@@ -106,6 +152,8 @@ class C17(Prop):
         self.rig = udp.UdpRig(ctx["shard"])
         self.rig.install(asyncio.get_running_loop())
         self.tag = 0
+        self.ncase = 0
+        self.lost_ip = f"127.17.{ctx['shard'] % 250 + 1}.17"
 
     async def teardown(self, ctx):
         self.rig.uninstall(asyncio.get_running_loop())
@@ -152,6 +200,7 @@ class C17(Prop):
 
     async def run_case(self, case, acc, ctx):
         nports, history = case["nports"], case["history"]
+        self.ncase += 1
         ports = self.rig.free_ports(nports)
         log = self.rig.log
         log.clear()
@@ -227,6 +276,9 @@ class C17(Prop):
                 return
             try:
                 if kind == "start":
+                    if self.ncase % 4 == 0:
+                        await lose_a_tcp_device(self.lost_ip, acc)
+                        trace.append("tcp device lost")
                     await bridge.start()
                     trace.append("start ok")
                     if expect_fail:
